@@ -1,0 +1,57 @@
+//! Read-only projection of the access structure used by the external
+//! verification harness. Only compiled with `--cfg cosmian_cover_crypt_verif`.
+
+use serde_json::{json, Value};
+
+use super::AccessStructure;
+use crate::abe_policy::{AttributeStatus, Dimension, EncryptionHint};
+
+impl AccessStructure {
+    /// JSON projection: dimensions sorted by name; attributes of a hierarchy
+    /// in rank order (lowest first), attributes of an anarchy sorted by name.
+    pub fn verif_view(&self) -> Value {
+        let mut dims = self
+            .dimensions
+            .iter()
+            .map(|(name, dim)| {
+                let (kind, mut attrs) = match dim {
+                    Dimension::Anarchy(attributes) => (
+                        "A",
+                        attributes
+                            .iter()
+                            .map(|(n, a)| (n.clone(), a.clone()))
+                            .collect::<Vec<_>>(),
+                    ),
+                    Dimension::Hierarchy(attributes) => (
+                        "H",
+                        attributes
+                            .iter()
+                            .map(|(n, a)| (n.clone(), a.clone()))
+                            .collect::<Vec<_>>(),
+                    ),
+                };
+                if kind == "A" {
+                    attrs.sort_by(|(a, _), (b, _)| a.cmp(b));
+                }
+                (
+                    name.clone(),
+                    json!({
+                        "d": name,
+                        "kind": kind,
+                        "attrs": attrs
+                            .into_iter()
+                            .map(|(n, a)| json!({
+                                "n": n,
+                                "id": a.id,
+                                "h": a.encryption_hint == EncryptionHint::Hybridized,
+                                "a": a.write_status == AttributeStatus::EncryptDecrypt,
+                            }))
+                            .collect::<Vec<_>>(),
+                    }),
+                )
+            })
+            .collect::<Vec<_>>();
+        dims.sort_by(|(a, _), (b, _)| a.cmp(b));
+        Value::Array(dims.into_iter().map(|(_, v)| v).collect())
+    }
+}
